@@ -36,7 +36,7 @@ ASSUMPTIONS = [
 ]
 
 KINDS = ["po", "pk", "va", "ko", "vk"]  # positional-only, pos-or-kw, *args, kw-only, **kwargs
-SPECIAL = ["self", "logger", "action_type", "include_args", "result", "_serializers"]
+SPECIAL = ["self", "logger", "action_type", "include_args", "result", "_serializers", "cls"]
 
 
 class BodyError(Exception):
@@ -345,6 +345,25 @@ def run_meta():
             if want[0] != got[0] or (want[0] == "ret" and want[1] != got[1]):
                 viol.append(("stacked-decorator:outcome-differs", {"fn": plain.__name__, "args": repr(a), "kwargs": repr(k),
                                                                    "want": repr(want)[:100], "got": repr(got)[:100]}))
+
+    # log_call stacked on log_call: the outer layer must bind like the function itself
+    def base(x, y=2, *rest, k=None):
+        return (x, y, rest, k)
+
+    twice = log_call(action_type="outer")(log_call(action_type="inner")(base))
+
+    def go2():
+        seen = world.capture()
+        r = twice(1, 5, 6, k=7)
+        return r, list(seen)
+
+    r, msgs2 = world.run_isolated(go2)
+    if r != (1, 5, (6,), 7):
+        viol.append(("stacked-log_call:result", {"got": repr(r)}))
+    outer_start = [m for m in msgs2 if m.get("action_type") == "outer" and m.get("action_status") == "started"]
+    want_args = {"x": 1, "y": 5, "rest": (6,), "k": 7}
+    if len(outer_start) != 1 or {k: v for k, v in outer_start[0].items() if k in want_args or k in ("args", "kwargs")} != want_args:
+        viol.append(("stacked-log_call:outer-start-fields", {"got": repr(outer_start)[:300]}))
 
     class K(object):
         @log_call
